@@ -9,7 +9,8 @@ Oracle (the property's own observation point): the engine sources of the working
 and driven through the normal Python API in sandboxed children over degenerate shapes (size-1 grids, periodic axes of
 length 1-2, isolated nodes, self-loops, parallel edges), all policies incl. empty request lists and empty tails, all
 processing modes, coarse time steps (overshoot to negative amounts), repeated output fetches with sampling in between,
-grid and graph runs in one process, double finalize, calls on a released engine.  Any abort / sanitizer report is a
+grid and graph runs in one process, double finalize, calls on a released engine, abandoned runs mixing the space types,
+simulate_script with coarse-graining maps holding -1 / -2 / -3 marks (refused in Python or clean).  Any abort / sanitizer report is a
 failing input; so is a trajectory that differs bitwise between the plain and the instrumented builds.
 Marshalling (observed by wrapping the library call in the child, not by reading the code): every buffer handed to
 engineexport_initialize_{grid,graph} has exactly the length of the count passed alongside (n_sample / t_sample, n_edges /
@@ -249,9 +250,62 @@ def abandon_histories(ctx, n, tag="ab"):
                     ctx.violation(key, "%s build: %s" % (kind, what), case, impl=impl, expected=exp)
 
 
+def cgmap_jobs(ctx, n, tag="cg"):
+    """simulate_script(…, cgmap=…) with index maps holding -1 (documented "excluded"), -2 / -3 and gaps: either Python refuses
+    the map (the property holds vacuously: counted) or the run is clean on the plain, hardened and sanitizer builds and no
+    index outside the space reaches the engine"""
+    rng = ctx.rng
+    jobs = []
+    for i in range(n):
+        option = lc.OPTIONS[i % 3]
+        # lines of cells, groups = consecutive runs (groups whose centres coincide — e.g. {1,4} and {2,3} of a line of 5 — give
+        # a coarse-grained graph with an edge of length 0 and NaN rates: coarse-graining's own domain, reported to the coordinator)
+        w, h = rng.choice([(6, 1), (4, 1), (3, 1), (5, 1)])
+        ncell = w * h
+        sysd = {"network": {"species": [{"label": "A", "density": 0, "D": 0.5}, {"label": "B", "density": 0, "D": 0.1}],
+                            "reactions": [{"eq": "A -> B", "k+": 0.3, "k-": 0.1}], "environments": ["a"]},
+                "space": {"type": "grid", "w": w, "h": h, "d": 1, "cell_volume": 1.0, "cell_env": [0] * ncell,
+                          "boundary_conditions": ({"x": "periodical"} if rng.random() < 0.4 else {})},
+                "state": [float(rng.choice([5, 12, 40, 3])) for _ in range(2 * ncell)]}
+        S = {"system": sysd, "kw": {"t_sample": [0.0, 0.05, 0.1], "time_step": 0.01, "t_max": 0.1, "sampling_policy": "on_t_sample",
+                                    "rng_seed": rng.randint(0, 2 ** 31 - 1)}}
+        ngroups = rng.randint(1, max(1, ncell - 1))
+        cuts = sorted(rng.sample(range(1, ncell), ngroups - 1)) if ngroups > 1 else []
+        cg = [sum(1 for c in cuts if c <= k) for k in range(ncell)]
+        marks = [[-1], [-2], [-3, -1], [-2, -2], []][i % 5]
+        for m in marks:
+            cg[rng.randrange(ncell)] = m
+        jobs.append({"id": "%s%d" % (tag, i), "engines": [option], "scripts": [S], "timeout": 20, "marks": marks, "cgmap": cg,
+                     "calls": [{"obj": 0, "call": "simulate_cg", "script": 0, "cgmap": cg}, {"obj": 0, "call": "finalize"}]})
+    for kind in ("plain", "hard", "asan"):
+        res = lc.run_jobs([dict(j) for j in jobs], kind=kind, chunk=1, parallel=ctx.n(8, 8), stall=ctx.n(15, 60))
+        for j in jobs:
+            r = res[j["id"]]
+            case = {"job": {k: j[k] for k in ("id", "engines", "scripts", "calls", "marks", "cgmap")}, "build": kind, "history": True}
+            if kind == "plain":
+                ctx.case(("cgmap", json.dumps(j["cgmap"]), json.dumps(j["scripts"], sort_keys=True)), nontrivial=True,
+                         sample={"op": "simulate-cgmap", "engine": j["engines"][0], "cgmap": j["cgmap"]})
+            if r["status"] != "ok":
+                at = r["at"] if r["at"] is not None else len(r["results"])
+                what = classify(r.get("stderr", ""), r["status"])
+                ctx.violation("%s:simulate:cgmap" % what, "%s build: %s in simulate_script(…, cgmap=%s)" % (kind, what, j["cgmap"]), case,
+                              impl={"status": r["status"], "stderr": r.get("stderr", "")[-600:]}, expected="the map is refused in Python, or the run is clean")
+                continue
+            x = r["results"][0]
+            if "raised" in x:
+                ctx.count("cgmap_refused_in_python_%s" % kind)
+                if not any(m < -1 for m in j["cgmap"]) and min(j["cgmap"]) >= -1 and sorted(set(v for v in j["cgmap"] if v >= 0)) == list(range(max(j["cgmap"]) + 1)) and kind == "plain":
+                    ctx.count("cgmap_valid_but_refused")
+                continue
+            ctx.count("cgmap_accepted_%s" % kind)
+            for key, what, impl, exp in lc.init_failures(x):
+                ctx.violation(key, "%s build, cgmap=%s: %s" % (kind, j["cgmap"], what), case, impl=impl, expected=exp)
+
+
 def run(ctx):
     explore(ctx, ctx.n(105, 3000), ctx.n(24, 600), p_degenerate=0.6, tag="m")
     abandon_histories(ctx, ctx.n(8, 48))
+    cgmap_jobs(ctx, ctx.n(10, 60))
     if not ctx.violations:
         checked_correspondence(ctx)
     ctx.notes.append("partial by nature: engine_never_faults is proved on the checked-access MODEL of the engine (all six algorithms, Init, "
